@@ -306,7 +306,10 @@ func (prop) Run(ctx *fw.Ctx, i int) fw.Result {
 				continue
 			case out.Timeout || out.Stuck != "":
 				res.Violate("no-return|"+ks, "Parse did not return under faults ("+what+") "+out.Stuck, art(c, what))
-				continue
+				// one hang decides the case; every further hanging execution would cost the full watchdog again
+				res.Hash = fw.HashOf(hp...)
+				res.NonTrivial = true
+				return res
 			case out.Err == nil || out.Module != nil:
 				res.Violate("fault-swallowed|"+ks, fmt.Sprintf("Parse returned module=%v err=%v although a file of the closure failed (%s)", out.Module != nil, out.Err, what), art(c, what))
 				continue
